@@ -237,7 +237,7 @@ func (m *Machine) call(caller *frame, pos token.Pos, fn Value, args []Value) Val
 // expects a func.
 type HostFunc func(m *Machine, caller *frame, args []Value) Value
 
-const maxDepth = 2500
+const maxDepth = 20000
 
 func (m *Machine) callSSA(caller *frame, pos token.Pos, fn *ssa.Function, args []Value, env []Value) Value {
 	info := m.info(fn)
